@@ -198,14 +198,14 @@ func InitExportingProcess(input ExporterInput) (*ExportingProcess, error) {
 		go func() {
 			defer expProc.wg.Done()
 			ticker := time.NewTicker(interval)
-			oneByteForRead := make([]byte, 1)
+			readBuffer := make([]byte, 512)
 			defer ticker.Stop()
 			for {
 				select {
 				case <-expProc.stopCh:
 					return
 				case <-ticker.C:
-					isConnected := expProc.checkConnToCollector(oneByteForRead)
+					isConnected := expProc.checkConnToCollector(readBuffer)
 					if !isConnected {
 						klog.Error("Connector has closed its side of the TCP connection, closing our side")
 						expProc.closeConnToCollector()
@@ -333,12 +333,19 @@ func (ep *ExportingProcess) closeConnToCollector() {
 
 // checkConnToCollector checks whether the connection from exporter is still open
 // by trying to read from connection. Closed connection will return EOF from read.
-func (ep *ExportingProcess) checkConnToCollector(oneByteForRead []byte) bool {
+func (ep *ExportingProcess) checkConnToCollector(readBuffer []byte) bool {
 	ep.connToCollector.SetReadDeadline(time.Now().Add(time.Millisecond))
-	if _, err := ep.connToCollector.Read(oneByteForRead); err == io.EOF {
-		return false
+	for {
+		_, err := ep.connToCollector.Read(readBuffer)
+		if err == io.EOF {
+			return false
+		}
+		if err != nil {
+			return true
+		}
+		// The collector is not expected to send anything. Whatever it sent is discarded:
+		// keep reading, the end of the stream may be right behind it.
 	}
-	return true
 }
 
 // NewTemplateID is called to get ID when creating new template record.
